@@ -17,40 +17,44 @@ from harness.lib.core import VERIF, Ctx, Rng, lean_lock, run_driver
 from harness.rigs import config as R
 
 MANIFEST = {
-    "text": "Lean 4 proof about an executable model of the scenario loader (PrimaiteGame.from_config with the computer/server/printer/"
-            "switch/router/firewall from_config paths, software install, users, folders/files, links, agents with action maps): for EVERY "
-            "well-formed scenario AST the loader builds exactly the inventory the configuration documentation declares - nodes and "
-            "their attributes, interfaces and addresses, ACL rules at their stated positions (incl. the six firewall ACLs), routes, "
-            "software with options, users, folders/files, links with bandwidths, agents - EACH IN ITS DECLARED INITIAL STATE: the node in "
-            "its declared operating state (ON/OFF/BOOTING/SHUTTING_DOWN), every piece of software RUNNING iff its node is ON with the "
-            "configured starting health (for every combination of constructor-starts-it / service-or-application / configured-or-system "
-            "software), every interface wired iff a link of the file ends at it and enabled iff wired and its node ON (the links loop "
-            "with connect_link's refusal of a second link is followed and proved equal to the closed form) "
-            "(C20_build_eq_declared, full strength; C20_software_one_instance_per_name and C20_software_initial_state for EVERY node "
-            "entry, well-formed or not; C20_configured_application_wins); for EVERY permutation of the entries of EVERY mapping "
-            "(network_interfaces, router ports, firewall ports, acl at both levels, action maps) the loader builds the same simulation "
-            "or raises the same error (C20_key_order_irrelevant, one lemma per mapping-iteration site of the regenerated site "
-            "inventory; the ACL site reuses C07_add_commute); an episode schedule assembles variants(n mod len) then the base scenario "
-            "(C20_schedule_assembles/_periodic/_key_order); the office-lan node set: a Lean model of OfficeLANAdder's loop builds, for "
-            "EVERY num_pcs / subnet / address block / router option / bandwidth, exactly the documented structure "
-            "(C20_office_build_eq_declared; _pc_wired, _pc_addressed, _addresses, _edge_uplinks, _router, _ports_distinct, "
-            "_invalid_refused). Tie: Gen/Config.lean (site inventory, default constants, system-software tables, firewall ACL table, "
-            "scheduler shape AND freshness (returns the object it has just parsed, stores nothing, no field to cache in), no loader "
-            "function consumes the mapping it is given, every software constructor applies configured options by plain assignment "
-            "(table of live attributes), shape of install/uninstall, office-lan constants / templates / wiring calls) + rig R-cfg: "
-            "generated scenario families, software-matrix scenarios (every configurable software type x non-default options x declared "
-            "operating state of the node) and every shipped scenario -> real from_config -> inventory walked from the object graph "
-            "(option EFFECTS read off the live attributes, initial states) diffed with the driver's build and declared; the same mapping "
-            "built a second time; environments built from a user-held mapping; schedule directories used the way reset() does (one "
-            "scheduler, episodes past the end, every combination built twice, answers handed straight to the loader, freshness probe, "
-            "real environment resets); permuted / reversed / re-serialised / aliased / merge-key / commented / quoted-integer files "
-            "compared by inventory and by seeded trajectory digest; office-lan node sets (incl. refused ones) diffed with the Lean adder. "
-            "PARTIAL: wireless routers, airspace, the defaults section, the observation space and reward sharing are outside the Lean "
-            "model; option mappings are atoms in the model (their effect on live attributes is a rig oracle + the Gen table); the game "
-            "section, the YAML text join of schedules and whole-scenario behaviour are checked by rig oracles, not theorems; after "
-            "reset() every node is powered on (F-31, not claimed: states are compared at load time).",
-    "note": "C20-specific: WellFormed now also asks for unique hostnames (needed to say which node a link end belongs to). "
-            "declared shares with build the list of install requests and the ascending-key order of extra NICs.",
+    "text": "Lean 4 proof about an executable model of the scenario loader (PrimaiteGame.from_config: game options, airspace capacities, "
+            "the defaults section, nodes of type computer/server/printer/switch/router/firewall/wireless-router through their "
+            "from_config paths, software install, users, folders/files, office-lan node sets (the adder's loop), links, agents with "
+            "action maps): for EVERY well-formed scenario AST the loader builds exactly the inventory the file declares "
+            "(C20_build_eq_declared, full strength) - nodes with attributes and durations (own value, else the defaults section's, else "
+            "the library's), interfaces and addresses, wireless access points with their frequency, ACL rules at their stated "
+            "positions, routes, software with options, users, folders/files, links with bandwidths incl. 0 (node-set links first), "
+            "agents, game options, capacity of every airspace frequency - EACH IN ITS DECLARED INITIAL STATE (node in its declared "
+            "operating state; software RUNNING iff its node is ON with the configured starting health; a wired interface wired iff a "
+            "link of the file or of a node set ends at it and enabled iff wired and node ON; an access point enabled iff node ON). "
+            "OPTIONS: the option mapping of a software entry is carried as a mapping; the model constructs the live attributes by "
+            "folding the REGENERATED table of constructor assignments (class, attribute, option) over the constructor chain of the "
+            "software and reads every declared option off the attribute that carries it: C20_live_option_eq_declared (for every "
+            "software name and every mapping the value read is the declared one) and C20_live_attribute_per_class; only pydantic's "
+            "handling of the schema's keyword arguments is trusted. SPECIFICATION: `declared` is the closed form of the loader; "
+            "`spec` (software = the SET of names each with the options of the last entry naming it; NIC number k carries the entry "
+            "under key k) shares no helper with the loader model and C20_declared_meets_spec / C20_build_meets_spec prove them equal up "
+            "to the order of software (C20_software_meets_spec for EVERY node entry; C20_nics_by_key). Also: C20_software_one_instance_"
+            "per_name, C20_software_initial_state (every node entry, well-formed or not), C20_key_order_irrelevant (every mapping incl. "
+            "airspace capacities; one lemma per mapping-iteration site of the regenerated site inventory), C20_schedule_assembles/"
+            "_periodic/_key_order, the office-lan theorems (C20_office_build_eq_declared and the structure theorems) which now also "
+            "hold INSIDE build. Tie: Gen/Config.lean (site inventory; constants; system-software, firewall-ACL, frequency tables; "
+            "assignment table and constructor chains of every software class; every key of the defaults section with the statement "
+            "that applies it; the keys the eight ACL rule loops read (both address spellings, each wildcard mask from its own key); "
+            "wireless-router ports and sections; scheduler shape and freshness; no loader consumes its argument; install/uninstall "
+            "shape; office-lan constants and wiring calls) + rig R-cfg: generated families, software-matrix scenarios, `enrich`ed "
+            "scenarios (defaults, wireless router + airspace, node set with a cross link, documented ACL keys, bandwidth 0) and EVERY "
+            "shipped scenario (none is outside the model any more) -> real from_config -> inventory walked from the object graph "
+            "(option effects read off live attributes, initial states, type-strict durations) diffed with the driver's build, declared "
+            "AND spec; second build from the same mapping; environments from a user-held mapping; schedule directories used as reset() "
+            "uses them; permuted / reversed / re-serialised / aliased / merge-key / commented / quoted-integer files; per KIND of integer "
+            "site a quoted-integer variant must build the identical simulation or be refused loudly. PARTIAL: observation-space "
+            "construction and reward sharing are outside the model; pydantic's coercions are trusted; after reset() every node is "
+            "powered on (F-31, not claimed: states are compared at load time).",
+    "note": "C20-specific: WellFormed asks for unique hostnames over nodes AND node-set nodes, unique option keys, registered "
+            "frequencies, valid node sets; the spec theorem additionally asks that network_interfaces keys are the NIC numbers 2..m+1. "
+            "A quoted integer is a YAML string: a loud refusal (router ports keys, link endpoint ports, listen_on_ports entries) is not "
+            "counted as a formatting-only difference; building something else would be.",
     "technique": "Lean 4 theorems over an executable loader model; regenerated site inventory and tables; differential inventory rig",
     "design_ref": "5/C20",
 }
@@ -582,7 +586,7 @@ def run(ctx: Ctx):
         cases.append((name, rec["cfg"] if rec.get("raw_keys") else _int_keys(rec["cfg"]), rec.get("digest_steps", 0)))
     # 2. generated families
     rng = ctx.rng.fork("scenarios")
-    n_gen = ctx.scale(12, 130)
+    n_gen = ctx.scale(12, 100)
     for k in range(n_gen):
         fam = G.FAMILIES[k % 3]
         cfg = G.gen_scenario(rng, size=1 + (k // 3) % 3, family=fam, shadowing=(k % 4 == 3), node_sets=False)
@@ -592,7 +596,7 @@ def run(ctx: Ctx):
         cases.append((f"gen:{k}:{fam}", cfg, steps))
     # 2b. software matrix: every software type x non-default options x declared operating state of the node
     mrng = ctx.rng.fork("matrix")
-    for k in range(ctx.scale(9, 80)):
+    for k in range(ctx.scale(9, 60)):
         cfg = G.gen_software_matrix(mrng, size=1 + k % 3)
         steps = ctx.scale(8, 16) if k % ctx.scale(5, 4) == 0 else 0
         if k % 2 == 1:
